@@ -54,6 +54,8 @@ def all_cases(tier):
         for s2 in B:
             if lattice.broadcast_shape(s1, s2) is not None:
                 add("a-b=a+(-b)", [s1, s2]); add("a/b=a*b**-1", [s1, s2])
+        for c in (2.0, 0.5, -3.0, 7, 1):
+            add("c/b=c*b**-1", [s1], {"c": c}); add("a/c=a*c**-1", [s1], {"c": c}); add("c-b=c+(-b)", [s1], {"c": c})
     for N, i, o in itertools.product((1, 2, 3), repeat=3):
         for bias in (False, True):
             add("linear=x@W.T+b", [(N, i), (o, i)] + ([(o,)] if bias else []))
@@ -96,6 +98,9 @@ def sides(case, ts, sg):
     if I == "addmm=a+b@c": return sg.addmm(ts[0], ts[1], ts[2]), ts[0] + ts[1] @ ts[2]
     if I == "a-b=a+(-b)": return ts[0] - ts[1], ts[0] + (-ts[1])
     if I == "a/b=a*b**-1": return ts[0] / ts[1], ts[0] * ts[1] ** -1
+    if I == "c/b=c*b**-1": return A["c"] / ts[0], A["c"] * ts[0] ** -1            # Python / NumPy scalar numerator (reflected operator)
+    if I == "a/c=a*c**-1": return ts[0] / A["c"], ts[0] * (A["c"] ** -1)
+    if I == "c-b=c+(-b)": return A["c"] - ts[0], A["c"] + (-ts[0])
     if I == "mean=sum/count":
         d = td(A["dim"]); kd = A.get("keepdims", False)
         if d is None: cnt = ts[0].size
